@@ -304,8 +304,6 @@ def classify(edit, cur, verdict):
     if k == "wrap":
         if not edit.get("direct", True):
             return "wrap:ctor-not-direct"
-        if cur[0] == "b" and cur[1] == edit["bp"] and cur[2] == edit["a"] and edit["lo"] < cur[3] and cur[4] <= edit["hi"]:
-            return "wrap:block-cursor-inside-wrapped-range-not-at-its-start:wrapper-index-uses-block-start"
     if k == "move":
         gp = edit["gap_path"]
         if cur[0] in ("n", "g"):
@@ -958,6 +956,7 @@ class Tracer:
                     ej = dict(base, k="wrap", wa=ATTR[wa],
                               ctor={"label": LIN.get(w), "kind": env.kind(w), "other": [env.to_tree(x) for x in other], "inner": inner})
                     params = dict(ej, direct=direct, modelled=ok, landing=type(inside[0]).__name__ if inside else "")
+                    st["wrap_direct"] = direct
                     if not ok:
                         ej = None
                 elif kind == "move":
@@ -1288,6 +1287,9 @@ def x_case(ctx, env, tracer, module, name, ops, src, p0, marks_by_line, pending,
     # the atomic edits the primitive performed, against the model (all cursors of each step's source tree)
     for st in steps[:6]:
         params, ej = tracer.step_params(st)
+        if params is not None and params.get("k") == "wrap":
+            # the hypothesis `WrapDirect` of wrap_coherent, checked on every wrapper the primitives build
+            ctx.count("P_wrap_direct" if params.get("direct") else "P_wrap_NOT_direct:%s" % st["op"])
         if ej is None:
             ctx.count("P_step_not_modelled:" + st["kind"])
             continue
